@@ -1,48 +1,3 @@
 """work in progress (not loaded by the checks)"""
 from .dsl import *     # noqa
 from . import vocab    # noqa
-
-from .c_call import CHROM, GENE      # noqa: E402
-
-_TSEG = ObjT("CopyNumArray", data=TabT(index="range", chromosome=CHROM, start=Int, end=Int, gene=GENE, log2=Real, probes=Int), meta=DictT())
-_TBIN = ObjT("CopyNumArray", data=TabT(index="any", chromosome=CHROM, start=Int, end=Int, gene=GENE, log2=Real, depth=Real, weight=Real), meta=DictT())
-_TB = TabT(index="range", chromosome=CHROM, start=Int, end=Int, gene=GENE, log2=Real, depth=Real, weight=Real)
-_TS = TabT(index="range", chromosome=CHROM, start=Int, end=Int, gene=GENE, log2=Real, probes=Int)
-_SLO, _SHI = "uf_int('slice_lo', q)", "uf_int('slice_hi', q)"
-
-contract(
-    "skgenome/intersect.py::iter_slices",
-    params=dict(table=_TB, other=_TS, mode=Lit("outer"), keep_empty=Lit(False)),
-    yields=VecT(Int), trusted=True, requires=[],
-    ensures=[
-        ("one_index_array_per_range", "len(result) == len(other)"),
-        ("block_of_overlapping_rows", "forall(0, len(other), lambda q: let(lambda lo, hi: 0 <= lo and lo < hi and hi <= len(table) and "
-                                      "len(result[q]) == hi - lo and forall(0, hi - lo, lambda m: result[q][m] == lo + m) and "
-                                      "forall(0, len(table), lambda r: (lo <= r and r < hi) == (table.chromosome[r] == other.chromosome[q] and "
-                                      "table.end[r] > other.start[q] and table.start[r] < other.end[q])), SLO, SHI))".replace("SLO", _SLO).replace("SHI", _SHI)),
-    ],
-    props=(), domain="skip",
-    notes="assumed where transfer_fields calls it (sorted bins, every segment overlapping at least one bin, so that "
-          "keep_empty=False skips nothing): the positions of the bins overlapping range q are the block [slice_lo(q), "
-          "slice_hi(q)); the bounded C07 contracts check iter_ranges_of / by_ranges built on the same kernel",
-)
-
-_WSUM = "sumof(Vec(SHI - SLO, lambda m: cnarr.data.weight[SLO + m]))".replace("SLO", _SLO).replace("SHI", _SHI)
-_DSUM = "sumof(Vec(SHI - SLO, lambda m: cnarr.data.depth[SLO + m] * cnarr.data.weight[SLO + m]))".replace("SLO", _SLO).replace("SHI", _SHI)
-contract(
-    "cnvlib/segmentation/__init__.py::transfer_fields",
-    params=dict(segments=_TSEG, cnarr=_TBIN),
-    returns=ObjT("CopyNumArray"),
-    requires=["len(cnarr.data) >= 1", "len(segments.data) >= 1"],
-    loops={0: dict(inv=[
-        ("lengths", "len(seg_weights) == len(segments.data) and len(seg_depths) == len(segments.data) and len(seg_genes) == len(segments.data)"),
-        ("weights_summed", "forall(0, i_, lambda q: seg_weights[q] == WSUM)".replace("WSUM", _WSUM), ["lengths"]),
-        ("depths_averaged", "forall(0, i_, lambda q: seg_depths[q] == ite(WSUM > 0, DSUM / WSUM, 0.0))".replace("WSUM", _WSUM).replace("DSUM", _DSUM), ["lengths"]),
-    ])},
-    ensures=[("same_rows", "len(result.data) == len(segments.data)"),
-             ("weights_summed", "forall(0, len(result.data), lambda q: result.data.weight[q] == WSUM)".replace("WSUM", _WSUM)),
-             ("depths_averaged", "forall(0, len(result.data), lambda q: result.data.depth[q] == ite(WSUM > 0, DSUM / WSUM, 0.0))".replace("WSUM", _WSUM).replace("DSUM", _DSUM)),
-             ],
-    modifies=("segments", "segments.data"),
-    props=("C03",), domain="skip",
-)
